@@ -468,3 +468,16 @@ _upd('C17',
      '<= 2 inputs + seeded sample; thorough: all) and lookups are run on the real databases incl. don\'t-care patterns with all completions.',
      'The sweep over the shipped entries is an execution, not a kernel proof (partial); that denormalize never raises on a matching entry is '
      'correspondence/search only.')
+
+def _add(pid, extra):
+    """append a sentence to the claim text of a property (later additions)"""
+    ref, desc, notes, tech = CLAIMED[pid]
+    CLAIMED[pid] = (ref, desc + ' ' + extra, notes, tech)
+
+
+_add('C07', 'Totality (c07_generators_return): on valid arguments (operands are gates, the basis name resolves, operands non-empty where '
+     'the code indexes them) every summation generator returns — the fuel of every loop suffices, no block is handed a list of the wrong '
+     'length, no label clashes — or stops because the 128-bit space of random labels is exhausted (a guard of the model, never reached by a run).')
+_add('C09', 'Totality (c09_generators_return): on valid arguments every generator of this property returns (or the label space is exhausted); '
+     'caller-given result labels must not be gates and be pairwise different, and for add_pairwise_if_then_else must not be labels the '
+     'generator draws later (necessary: ca_pairIte_collision is the failing run).')
